@@ -1262,6 +1262,17 @@ func generate(w *run.W) {
 					break
 				}
 			}
+			if e.b[oReorder] && e.b[oDup] && e.b[oInv] && k%3 == 0 {
+				// member order under ReorderRawObjects with names that tie: a top-level wide object from the tied pool
+				c := &tcfg{depth: 1, width: 1, invalid: true, ws: r.IntN(2) == 0, dup: 40}
+				var sb strings.Builder
+				for tries := 0; tries < 8 && !strings.Contains(sb.String(), "\xff"); tries++ {
+					sb.Reset()
+					genWideObject(r, c, &sb, 0)
+				}
+				text = []byte(sb.String())
+				w.Count("tied_wide_objects_under_reorder", 1)
+			}
 			a := &fmtArgs{Text: text, Route: route, Opts: opts}
 			if route == "append-overlap" {
 				a.Pre, a.Overl, a.Cut, a.Spare = r.IntN(8), r.IntN(4), r.IntN(len(text)+1), r.IntN(64)
